@@ -283,6 +283,9 @@ func PointIndexOK(point string) bool { panic("ghost") }
 //@ requires dem != nil && dem.depthExecutors != nil && dem.result != nil && dem.pointDataExtractor != nil && dem.maxDepth >= 0
 //@ requires forall(d, 0, dem.maxDepth+1, has(dem.depthExecutors, d))
 //@ loop 1 invariant[depth] depth >= 0
+// C06/C09: a failed depth ends the execution: no depth runs after it (its requests - the mutation root fields
+// among them - would be the only ones at hand, and would be sent a second time)
+//@ loop 1 invariant[stops-at-first-failure] len(errs) == 0 @props C06 C09
 //@ requires forallT(d, int, has(dem.depthExecutors, d) ==> wfDE(dem.depthExecutors[d]))
 //@ end
 
